@@ -582,3 +582,34 @@ Qed.
 
 Print Assumptions C05_source_parsed_exactly_once.
 Print Assumptions C05_source_counters_are_the_tallies.
+
+(* ---- keyboard segments: "adjacent keys" means PHYSICALLY adjacent keys.  KbdGeometry.v
+   writes the two keyboards down independently of the source (ANSI geometry, quarter key
+   widths).  Every adjacency the model accepts on the layouts regenerated from the source
+   holds between physical keys (all pairs of keys, by computation) ... *)
+From Pcfg Require Import KbdGeometry KbdGeometryProofs.
+Theorem C05_keyboard_adjacency_is_physical : pairing c_kbs phys_layouts = true.
+Proof. exact geometry_contains_code_adjacency. Qed.
+(* ... so a sound K segment walks over physically adjacent keys of one keyboard *)
+Theorem C05_keyboard_segments_are_physical_walks : forall x n,
+  c_sound x -> snd x = Some (LK n) ->
+  exists pl, In pl phys_layouts /\ phys_walk pl (fst x) = true.
+Proof. exact keyboard_segments_are_physical_walks. Qed.
+(* side condition on the regenerated layouts: every row list begins with the key the
+   stagger of is_next_on_keyboard presupposes (1 / q or й / a or ф / z or я, both shift states) *)
+Theorem C05_side_layout_rows_start :
+  map row_starts c_kbs =
+  [ [Some 49; Some 33; Some 113; Some 81; Some 97; Some 65; Some 122; Some 90]%N;
+    [Some 49; Some 33; Some 1081; Some 1049; Some 1092; Some 1060; Some 1103; Some 1071]%N ].
+Proof. exact layout_rows_start_at_the_staggered_column. Qed.
+Example C05_physical_walk_examples :
+  phys_walk phys_qwerty [49; 113; 97; 122]%N = true /\
+  phys_walk phys_jcuken [49; 1081; 1092; 1103]%N = true /\
+  phys_walk phys_qwerty [50; 101; 100; 99]%N = false /\
+  phys_walk phys_jcuken [50; 1091; 1074; 1089]%N = false /\
+  phys_walk phys_jcuken [1105; 49; 1081; 1092]%N = true.
+Proof. exact phys_walk_examples. Qed.
+
+Print Assumptions C05_keyboard_adjacency_is_physical.
+Print Assumptions C05_keyboard_segments_are_physical_walks.
+Print Assumptions C05_side_layout_rows_start.
